@@ -207,3 +207,7 @@ META = {
         'utils.cpu_units (strings)'],
     'reach_required': ['accepted', 'rejected', 'trait_limit_applies'],
 }
+
+
+def weight(name, spec):
+    return spec.get('n', 0) * 3 + spec.get('nlim', 0)
